@@ -121,6 +121,9 @@ func (e Float64Engine) makeArray(arr *array, t Dtype, size int) {
 }
 
 func (e Float64Engine) FMA(a, x, y Tensor) (retVal Tensor, err error) {
+	if !a.Shape().Eq(x.Shape()) || !a.Shape().Eq(y.Shape()) {
+		return e.StdEng.FMA(a, x, y) // the flat kernels below pair elements by position in storage
+	}
 	reuse := y
 	if err = e.checkThree(a, x, reuse); err != nil {
 		return nil, errors.Wrap(err, "Failed checks")
@@ -144,6 +147,9 @@ func (e Float64Engine) FMA(a, x, y Tensor) (retVal Tensor, err error) {
 }
 
 func (e Float64Engine) FMAScalar(a Tensor, x interface{}, y Tensor) (retVal Tensor, err error) {
+	if !a.Shape().Eq(y.Shape()) {
+		return e.StdEng.FMAScalar(a, x, y)
+	}
 	reuse := y
 	if err = e.checkTwo(a, reuse); err != nil {
 		return nil, errors.Wrap(err, "Failed checks")
@@ -170,7 +176,8 @@ func (e Float64Engine) FMAScalar(a Tensor, x interface{}, y Tensor) (retVal Tens
 // Add performs a + b elementwise. Both a and b must have the same shape.
 // Acceptable FuncOpts are: UseUnsafe(), WithReuse(T), WithIncr(T)
 func (e Float64Engine) Add(a Tensor, b Tensor, opts ...FuncOpt) (retVal Tensor, err error) {
-	if a.RequiresIterator() || b.RequiresIterator() {
+	if a.RequiresIterator() || b.RequiresIterator() || !a.Shape().Eq(b.Shape()) {
+		// (operands of different shapes are the default engine's to refuse, or to serve when one of them is a scalar)
 		return e.StdEng.Add(a, b, opts...)
 	}
 
@@ -181,6 +188,9 @@ func (e Float64Engine) Add(a Tensor, b Tensor, opts ...FuncOpt) (retVal Tensor, 
 	}
 	if err = e.checkThree(a, b, reuse); err != nil {
 		return nil, errors.Wrap(err, "Failed checks")
+	}
+	if toReuse && !reuse.Shape().Eq(a.Shape()) {
+		return e.StdEng.Add(a, b, opts...) // which gives the destination the shape of the result
 	}
 
 	var hdrA, hdrB, hdrReuse *storage.Header
